@@ -22,7 +22,7 @@ NATIVE = {
             ("movegen-small", ["--secs=60"], ["--secs=600"])],
     "C02": [("movegen", ["--what=make", "--walks=100", "--plies=30"], ["--what=make", "--walks=800", "--plies=60"])],
     "C17": [("movegen", ["--what=quiescence", "--walks=150", "--plies=30"], ["--what=quiescence", "--walks=1500", "--plies=60"])],
-    "C15": [("tt-seq", ["--len=4"], ["--len=5"])],
+    "C15": [("tt-seq", ["--len=4", "--bulk=1300000"], ["--len=5", "--bulk=6000000"])],
     "C11": [("hash-components", [], [])],
     "C12": [("budget", [], [])],
     "C10": [("tables", [], [])],
